@@ -120,11 +120,18 @@ F_NotStarted          == lastPost # "not-started"
 F_NeededNotCurrent    == lastPost # "needed-not-current"
 
 \* all witnesses in one run (workers = 1): registers set by the invariant WitTrack, printed by the post-condition
+\* a diamond with a deeper module behind the join: d changed (n itself not), and some discarded context reaches
+\* n through two different direct imports (a -> m -> n -> d and a -> n -> d): the transitive-importer clause
+\* has to find d behind a module that is met twice in one walk
+W_NoDeepDiamond == ~(lastAct.a = "reload" /\ "modules.d" \in ChangedCtx(prev.ctx, World(files, hdirs, cfg))
+                     /\ "modules.n" \notin ChangedCtx(prev.ctx, World(files, hdirs, cfg))
+                     /\ \E x \in Discarded(prev.ctx, ctx) :
+                          Cardinality({ y \in prev.ctx[x].imports : "modules.n" \in TransImports(prev.ctx, y) \cup {y} }) >= 2)
 WitNames == << "W_NoImporterDiscard", "W_NoWidening", "W_NoUntouched", "W_NoLazyReload", "W_NoFailedLoad", "W_NoNamed",
-               "F_ChangedNotDiscarded", "F_OrphanLoaded", "F_NotStarted", "F_NeededNotCurrent" >>
+               "F_ChangedNotDiscarded", "F_OrphanLoaded", "F_NotStarted", "F_NeededNotCurrent", "W_NoDeepDiamond" >>
 WitVal(k) == CASE k = 1 -> ~W_NoImporterDiscard [] k = 2 -> ~W_NoWidening [] k = 3 -> ~W_NoUntouched [] k = 4 -> ~W_NoLazyReload
                [] k = 5 -> ~W_NoFailedLoad [] k = 6 -> ~W_NoNamed [] k = 7 -> ~F_ChangedNotDiscarded [] k = 8 -> ~F_OrphanLoaded
-               [] k = 9 -> ~F_NotStarted [] k = 10 -> ~F_NeededNotCurrent
+               [] k = 9 -> ~F_NotStarted [] k = 10 -> ~F_NeededNotCurrent [] k = 11 -> ~W_NoDeepDiamond
 ASSUME \A k \in 1..Len(WitNames) : TLCSet(k, FALSE)
 WitTrack  == \A k \in 1..Len(WitNames) : (lastAct.a = "reload" /\ WitVal(k)) => TLCSet(k, TRUE)
 WitReport == PrintT("INFO " \o ToJson([seen |-> { WitNames[k] : k \in { j \in 1..Len(WitNames) : TLCGet(j) } }]))
